@@ -92,3 +92,22 @@ func bitWidth[T constraints.Integer](z T) int {
 	// ^0 has all bits set; shifting left until zero counts the width
 	return n
 }
+
+// C16_ScaleHistory: the scale does not depend on which instantiations were asked before.
+func C16_ScaleHistory[A, B constraints.Integer]() {
+	d1 := vf.Pick("d1", 0, 63)
+	d2 := vf.Pick("d2", 0, 63)
+	_ = signal.Scale[A](signal.BitDepth(1+d1), 1) // an earlier request, possibly one that does not fit A
+	var z B
+	width := uint(bitWidth(z))
+	fits := uint(d2) <= width-1
+	if ^z < 0 {
+		fits = uint(d2) <= width-2
+	}
+	if !fits {
+		return
+	}
+	vf.Cover("fits")
+	l := vf.Pick("l", 1, 2)
+	vf.Assert("scale-is-2^(h-l)-whatever-came-before", signal.Scale[B](signal.BitDepth(l+d2), signal.BitDepth(l)) == B(uint64(1)<<uint(d2)))
+}
